@@ -2,7 +2,10 @@
 
 package http2
 
-import "sync/atomic"
+import (
+	"net"
+	"sync/atomic"
+)
 
 // Verification hooks (build tag verif). With the tag off every hook is an
 // empty inlinable function and verifOn is a false constant.
@@ -53,4 +56,51 @@ func verifPoint(site string) {
 	if h := verifPointHook.Load(); h != nil {
 		(*h)(site)
 	}
+}
+
+// VerifGauges is a snapshot of the per-connection state the server keeps,
+// taken by the stream loop at the top of every iteration.
+type VerifGauges struct {
+	Conn        net.Conn
+	Streams     int // entries in the stream table
+	OpenStreams int // streams counted against SETTINGS_MAX_CONCURRENT_STREAMS
+	ClosedRing  int // remembered closed stream ids
+	SelfReset   int // remembered streams this end reset
+	HeaderBytes int // buffered, not yet decodable header block bytes
+	BodyBytes   int // buffered request body bytes of streams whose handler has not started
+	WriterQueue int
+	ReaderQueue int
+	LastID      uint32
+}
+
+var verifGaugeHook atomic.Pointer[func(VerifGauges)]
+
+// VerifSetGaugeHook installs (or with nil removes) the gauge observer.
+func VerifSetGaugeHook(f func(VerifGauges)) {
+	if f == nil {
+		verifGaugeHook.Store(nil)
+		return
+	}
+	verifGaugeHook.Store(&f)
+}
+
+func verifGauges(sc *serverConn, strms Streams, open, closed int) {
+	h := verifGaugeHook.Load()
+	if h == nil {
+		return
+	}
+
+	g := VerifGauges{
+		Conn: sc.c, Streams: len(strms), OpenStreams: open, ClosedRing: closed, SelfReset: len(sc.selfReset),
+		WriterQueue: len(sc.writer), ReaderQueue: len(sc.reader), LastID: sc.lastID, HeaderBytes: len(sc.discardLeft),
+	}
+
+	for _, s := range strms {
+		g.HeaderBytes += len(s.previousHeaderBytes)
+		if s.ctx != nil && !s.handlerRunning && !s.responded {
+			g.BodyBytes += len(s.ctx.Request.Body())
+		}
+	}
+
+	(*h)(g)
 }
